@@ -224,6 +224,7 @@ pub fn child_main(args: &[String]) -> i32 {
             );
             0
         }
+        "sink" => child_sink(&args[1..]),
         _ => {
             eprintln!("unknown child mode {mode}");
             2
@@ -233,4 +234,127 @@ pub fn child_main(args: &[String]) -> i32 {
 
 pub fn parse_child(out: &str) -> Option<Value> {
     out.lines().rev().find_map(|l| serde_json::from_str::<Value>(l).ok())
+}
+
+// ---------------------------------------------------------------------------------------
+// Child: stream a seeded sequence through a file sink, acknowledging after every work().
+
+pub fn sink_stream_u8(n: usize, seed: u64) -> Vec<u8> {
+    let mut r = crate::gens::XRng::new(seed ^ 0x51c);
+    (0..n).map(|_| r.next() as u8).collect()
+}
+pub fn sink_stream_f32(n: usize, seed: u64) -> Vec<f32> {
+    let mut r = crate::gens::XRng::new(seed ^ 0xf51c);
+    (0..n).map(|_| f32::from_bits(r.next() as u32)).collect()
+}
+pub fn sink_stream_str(n: usize, seed: u64) -> Vec<String> {
+    let mut r = crate::gens::XRng::new(seed ^ 0x5751c);
+    (0..n)
+        .map(|i| {
+            let l = r.below(40) as usize;
+            let mut s = format!("{i}:");
+            for _ in 0..l {
+                s.push((b'a' + r.below(26) as u8) as char);
+            }
+            s
+        })
+        .collect()
+}
+
+pub fn mode_of(m: &str) -> rustradio::file_sink::Mode {
+    match m {
+        "c" => rustradio::file_sink::Mode::Create,
+        "o" => rustradio::file_sink::Mode::Overwrite,
+        _ => rustradio::file_sink::Mode::Append,
+    }
+}
+
+fn ack(n: usize) {
+    let s = format!("{n}\n");
+    // raw write: no userspace buffering between the sink's work() and the acknowledgement
+    unsafe { libc::write(1, s.as_ptr() as *const libc::c_void, s.len()) };
+}
+
+/// The sink was constructed (the file is open): from here on the kill oracle applies.
+fn ready() {
+    unsafe { libc::write(1, b"R\n".as_ptr() as *const libc::c_void, 2) };
+}
+
+/// args: path mode(c|o|a) kind(u8|f32|str) total seed chunk_max
+fn child_sink(args: &[String]) -> i32 {
+    use rustradio::block::Block;
+    use rustradio::blocks::{FileSink, NoCopyFileSink};
+    let path = &args[0];
+    let mode = mode_of(&args[1]);
+    let kind = args[2].as_str();
+    let total: usize = args[3].parse().unwrap();
+    let seed: u64 = args[4].parse().unwrap();
+    let chunk_max: u64 = args[5].parse::<u64>().unwrap().max(1);
+    let mut r = crate::gens::XRng::new(seed ^ 0xc4);
+    rustradio::verif::set_stream_size(Some(8192));
+    macro_rules! run_samples {
+        ($t:ty, $data:expr) => {{
+            let data: Vec<$t> = $data;
+            let (w, rd) = rustradio::stream::new_stream::<$t>();
+            let mut sink = match FileSink::<$t>::new(rd, path, mode) {
+                Ok(s) => s,
+                Err(_) => return 3,
+            };
+            let cap = w.free();
+            let mut pos = 0usize;
+            ready();
+            loop {
+                let n = (1 + r.below(chunk_max) as usize).min(data.len() - pos).min(w.free());
+                if n > 0 {
+                    let mut wb = w.write_buf().unwrap();
+                    wb.slice()[..n].copy_from_slice(&data[pos..pos + n]);
+                    wb.produce(n, &[]);
+                    pos += n;
+                }
+                if sink.work().is_err() {
+                    return 4;
+                }
+                let consumed = pos - (cap - w.free());
+                ack(consumed);
+                if pos == data.len() && consumed == pos {
+                    break;
+                }
+            }
+        }};
+    }
+    match kind {
+        "u8" => run_samples!(u8, sink_stream_u8(total, seed)),
+        "f32" => run_samples!(f32, sink_stream_f32(total, seed)),
+        _ => {
+            let data = sink_stream_str(total, seed);
+            let (w, rd) = rustradio::stream::new_nocopy_stream::<String>();
+            let mut sink = match NoCopyFileSink::<String>::new(rd, path, mode) {
+                Ok(s) => s,
+                Err(_) => return 3,
+            };
+            let mut pos = 0usize;
+            ready();
+            loop {
+                let n = (1 + r.below(chunk_max.min(5)) as usize).min(data.len() - pos);
+                for i in 0..n {
+                    w.push(data[pos + i].clone(), &[]);
+                }
+                pos += n;
+                // one packet per work() call
+                for _ in 0..n.max(1) {
+                    if sink.work().is_err() {
+                        return 4;
+                    }
+                    ack(pos - w.verif_len());
+                }
+                if pos == data.len() && w.verif_len() == 0 {
+                    break;
+                }
+            }
+        }
+    }
+    // acknowledged everything; linger so that the parent decides when the process dies
+    ack(usize::MAX);
+    std::thread::sleep(std::time::Duration::from_secs(20));
+    0
 }
